@@ -130,6 +130,8 @@ def items(tier, seed):
         for entry in ("linear_grid_scan", "upper_limit"):
             out.append(("grid", n, entry))
     out.append(("forward", None, None))
+    # a second automatic scan on the same model object and data tensor after a first one with other hypotest options
+    out.append(("auto-seq", "none", "toms748_scan"))
     return out
 
 
@@ -137,6 +139,8 @@ def item_opts(item, tier):
     # the automatic-scan items explore ~100-700 symbolic paths each; twins run on the cheap items
     if item[0] == "auto":
         return {"twin": tier == "thorough" and item[1] == "none" and item[2] == "toms748_scan", "validate": 0}
+    if item[0] == "auto-seq":
+        return {"twin": True, "validate": 0}
     return {"twin": True}
 
 
@@ -162,7 +166,26 @@ def harness_for(item):
         data = tb.astensor([env.sym(f"d{i}") for i in range(model.config.nmaindata + model.config.nauxdata)])
         level = _level(env)
         curves, root = Curves(env), Root(env)
-        if entry == "toms748_scan":
+        if kind == "auto-seq":
+            # first scan: concrete curves cls_k(mu) = a_k / (a_k + mu), level 1/4, exact roots 3 a_k, options test_stat="q"
+            lo, hi = 0.5, 16.0
+            A = [3, 1, 2, 3, 4, 5]
+            first = []
+
+            def conc_curves(poi, d, m, return_expected_set=False, **k):
+                first.append(dict(poi=poi, kw=k))
+                vals = [N(a) / (N(a) + N(poi)) for a in A]
+                return (tb.astensor(env.raw(vals[0])), [tb.astensor(env.raw(v)) for v in vals[1:]])
+
+            def conc_root(f, a, b, args=(), **k):
+                r = 3.0 * A[args[1]]
+                f(r, *args)
+                return r
+            with patched((UL, "hypotest", conc_curves), (UL, "toms748", conc_root), (UL, "np", _NP(env))):
+                o1, e1 = UL.toms748_scan(data, model, lo, hi, level=0.25, test_stat="q")
+            env.eq("first-scan:obs", o1, 9, key="auto-seq:first")
+            env.eq_all("first-scan:exp", list(e1), [3, 6, 9, 12, 15], key="auto-seq:first")
+        elif entry == "toms748_scan":
             lo, hi = env.sym("lo", positive=True), env.sym("hi", positive=True)
             env.assume(N(lo) < N(hi))
         else:
@@ -213,7 +236,7 @@ def harness_for(item):
                         warnings.simplefilter("ignore")
                         out = pyhf.infer.intervals.upperlimit(data, model, None, level, True, **kw)
         obs, exp, (pts, results) = out
-        key = f"auto:{entry}"
+        key = f"{kind}:{entry}"
         # "within the root-finder tolerance": the tolerances of the call reach every root search unchanged
         want_atol, want_rtol = (atol, rtol) if entry == "toms748_scan" else (Fraction(2e-12), Fraction(1e-4))
         env.holds("six-root-searches", len(root.calls) == 6, key=f"{key}:roots")
@@ -359,4 +382,4 @@ def harness_for(item):
             env.eq("grid:level-forwarded", rec["grid"]["level"], lv, key="level:grid")
             env.holds("grid:kwargs", rec["grid"]["kw"] == dict(test_stat="q") and rec["grid"]["scan"] == "S" and rec["grid"]["rr"] is False, key="level:grid")
 
-    return {"auto": auto, "grid": grid, "forward": forward, "forward-level": forward_level}[kind]
+    return {"auto": auto, "auto-seq": auto, "grid": grid, "forward": forward, "forward-level": forward_level}[kind]
